@@ -21,7 +21,7 @@ ASSUMPTIONS = [
     "key-row lemma (row r of a key encrypts s_in 2^-((r+1) dsize b) under s_out with |e| <= 20 * 2^-k) is a named Section hypothesis of the phase theorems; "
     "it is checked on every freshly generated key by the oracle (code 3090), not proved for the key-encryption routine",
     "per-column normalisation value facts are taken from C08 (hypothesis normalize_value_ok where used)",
-    "trace / packing / conversions take a scratch space larger than their declared tmp_bytes (the declared sizes are too small: C12's property)",
+    "every operation runs in exactly its declared tmp_bytes, except glwe_pack and glwe_from_lwe, whose size queries ignore inputs larger than the result (C12's property)",
     "GLWEPacker is exercised with log_batch = 0 only; LWE key-switch, packing and the packer are checked at level L2 only",
 ]
 TRUSTED = ["secret coefficients are read through glwe_decrypt of a crafted ciphertext (GLWESecret has no public accessor)",
@@ -29,16 +29,7 @@ TRUSTED = ["secret coefficients are read through glwe_decrypt of a crafted ciphe
 
 
 def classify(record):
-    try:
-        code, ps, vs, outs = K.parse(record)
-    except Exception:
-        return None
-    # GLWEPacker: an input whose radix differs from the accumulators' is normalised when it is stored into an empty
-    # accumulator but panics (base2k assertion of glwe_sub / glwe_rotate) when it has to be combined with a stored value
-    # (calls 2k and 2k+1 both carry a ciphertext), and is silently re-labelled (glwe_rotate copies its limbs into a buffer of the
-    # accumulator's radix) when call 2k carried none
-    if code == 3033 and ps[3] != ps[6] and (not outs.startswith("PANIC") or ("left == right" in outs and "Base2K" in outs)):
-        return "glwe_packer.combine.cross_radix"
+    # no open finding class: glwe_packer.combine.cross_radix was repaired in /repo (a58cce6)
     return None
 
 
